@@ -12,7 +12,7 @@ import io
 import random
 import re
 
-from vlib.chglue import PART_K, PART_N, TIER, THOROUGH, SEED, in_part, reset_defaults, concrete
+from vlib.chglue import PART_K, PART_N, TIER, THOROUGH, SEED, in_part, reset_defaults, concrete, known_open
 from harness.c02 import bsearch
 from harness import tables as T
 from harness import builder as B
@@ -35,9 +35,11 @@ MSG_PANEL = [('2.5', 'ADT_A01'), ('2.5', 'OML_O33'), ('2.5', 'RSP_K21'), ('2.5',
 
 def _msgs():
     out = [(v, m) for (v, m) in MSG_PANEL if m in T.LIBS[v].MESSAGES]
-    if THOROUGH:
-        rnd = random.Random(5000 + SEED)
-        out += rnd.sample([(v, m) for v in T.VERSIONS for m in T.MSGS[v] if (v, m) not in out], 60)
+    rnd = random.Random(5000 + SEED)
+    # structures naming the pseudo-segments ANY / ANYHL7SEGMENT have no fixed shape
+    rest = [(v, m) for v in T.VERSIONS for m in T.MSGS[v] if (v, m) not in out and
+            all(n in T.SEGS[v] and T.seg_children(v, n) is not None for n in B.structure_names(T.LIBS[v].MESSAGES[m]))]
+    out += rnd.sample(rest, 160 if THOROUGH else 24)
     return out
 
 
@@ -97,7 +99,7 @@ def seg_check(v, s, kind, t, trace=None):
         if seg.allow_infinite_children:
             return True
         seg.add(Field(version=v, validation_level=2))
-        expect = 'Unknown element found'
+        expect = ('Unknown element found', 'Invalid children detected for <Segment %s>' % s)
     else:
         leafs = [c for c in ch if c[1][0] == 'leaf' and c[1][2] in ('ST', 'ID', 'IS', 'NM', 'SI') and B.field_text(v, c[1]) != '']
         if not leafs:
@@ -114,7 +116,7 @@ def seg_check(v, s, kind, t, trace=None):
     if expect is None:
         verdict = rep.is_valid
     else:
-        verdict = (not rep.is_valid) and any(e.startswith(expect) for e in errs)
+        verdict = (not rep.is_valid) and any(e.startswith(expect) for e in errs)     # expect: a prefix or a tuple of prefixes
     if trace is not None:
         trace.append('%s %s [%s, t=%d] text %r\n  expected %s\n  errors %r' % (v, s, k, t, seg.to_er7(), expect or 'valid', errs))
     return ok and verdict
@@ -159,6 +161,11 @@ def msg_check(v, mname, kind, t, fg, trace=None):
         if k == 'z-segment':
             lines.append('ZZZ|1|2')
         text = '\r'.join(lines)
+    # as in C08: only instances whose segment names each occur at a single place in the structure have a prescribed tree
+    allnames = B.structure_names(ref)
+    used = [ln[:3] for ln in text.split('\r')[1:] if ln[:3] != 'ZZZ']
+    if k != 'foreign-segment' and any(allnames.count(n) != 1 for n in used):
+        return True
     m = parse_message(text, validation_level=2, find_groups=fg)
     ok, rep = observe(m, trace)
     errs = [str(e) for e in rep.errors]
